@@ -49,7 +49,11 @@ TITLE = "confidence_region_is_covered vs certified feasibility verdicts"
 RULE = ("cases: (cone, two regions of one kind, slack); kinds: rectangles (LP, objective-space scalar / "
         "0-d / 1-element / m-vector slack), balls Σ=I (per-facet slack ε·α, scalar, zero), general "
         "ellipsoids Σ=LLᵀ with dyadic L (certificates proposed numerically, verified in Lean), malformed "
-        "slack sizes, forced solver statuses; shapes: random, decisive (slack or radius moved to a chosen "
+        "slack sizes, forced solver statuses, pair-dtype rectangles (one bound of one region arrives as an "
+        "int64/int32 array or a Python int list, the other bound fractional as float64/float32 array or float "
+        "list; the float region is placed so that the fractional part of that bound decides the certified "
+        "verdict; the answer is judged for the VALUES; every observed call of hyperrectangle_get_region_matrix "
+        "is mirrored against the model's box rows); shapes: random, decisive (slack or radius moved to a chosen "
         "distance from the feasibility boundary), touching, degenerate, nested, swapped, tiny late-run "
         "regions; scales 1e-4…1e2; non-trivial = robust configuration (model certified the same verdict "
         "with the margin ±tau) that was compared with the code; distinct by (kind, W, regions, slack)")
@@ -144,6 +148,7 @@ def gen(ctx):
     n_lp = ctx.n(40, 1500)
     n_tiny = ctx.n(70, 3000)
     n_hist = ctx.n(60, 2500)
+    n_dtype = ctx.n(60, 3000)
     if ctx.worker == 0:
         yield from _fixed_cases()
     for _ in range(n_bad):
@@ -159,6 +164,8 @@ def gen(ctx):
                 yield c
         if i < n_hist:
             yield _gen_hist(rng, names)
+        if i < n_dtype:
+            yield _gen_rect_dtype(rng, names)
         if i < n_rect:
             yield _gen_rect(rng, names)
         if i < n_ball:
@@ -268,6 +275,123 @@ def _gen_rect(rng, names):
         l1, u1, l2, u2 = l2, u2, l1, u1
     return {"kind": "rect", "cone": cname, "W": W, "l1": _flt(l1), "u1": _flt(u1), "l2": _flt(l2),
             "u2": _flt(u2), "slack": slack, "slack_kind": sk, "shape": shape}
+
+
+def _mk_bound(vals, container):
+    """a bound in the container the case asks for; integer containers require integral values"""
+    if container in (None, "float64"):
+        return np.array([float(v) for v in vals], dtype=float)
+    if container == "float32":
+        a = np.array([float(v) for v in vals], dtype=np.float32)
+        if any(float(x) != float(v) for x, v in zip(a, vals)):
+            raise ValueError("pair-dtype case: value not representable in float32")
+        return a
+    if container == "pylist-float":
+        return [float(v) for v in vals]
+    if any(float(v) != int(v) for v in vals):
+        raise ValueError("pair-dtype case: integer container with a non-integral value")
+    if container == "int64":
+        return np.array([int(v) for v in vals], dtype=np.int64)
+    if container == "int32":
+        return np.array([int(v) for v in vals], dtype=np.int32)
+    if container == "pylist-int":
+        return [int(v) for v in vals]
+    raise ValueError(f"unknown container {container!r}")
+
+
+def _trunc_case(case):
+    """the same case with the fractional bound of the mixed region truncated towards zero (what an
+    integer-typed buffer would silently make of it); None if the case has no integer container"""
+    dt = case.get("dtypes") or {}
+    pairs = {"l1": "u1", "u1": "l1", "l2": "u2", "u2": "l2"}
+    ints = [k for k, v in dt.items() if v in ("int64", "int32", "pylist-int")]
+    if not ints:
+        return None
+    c = dict(case)
+    for k in ints:
+        o = pairs[k]
+        c[o] = [float(math.trunc(v)) for v in case[o]]
+    c.pop("dtypes", None)
+    return c
+
+
+def _gen_rect_dtype(rng, names):
+    """one bound of one region in an integer container (int64 / int32 array, Python int list), the other bound
+    of that region fractional (float64 / float32 array, float list); the other region is all float64 and is
+    translated along an interior direction of the cone to a position between the feasibility thresholds of
+    the true box and of the box with the fractional bound truncated towards zero: the fractional part decides"""
+    case = None
+    for attempt in range(40):
+        cname = rng.choice([n for n in names if len(_CONES[n][0]) <= 3])
+        W = _CONES[cname]
+        m = len(W[0])
+        e = interior_dir(W)
+        s = rng.choice([1.0, 1.0, 0.5, 1e-1, 1e-2, 1e-4])
+        which = rng.choice([1, 2])
+        int_bound = rng.choice(["upper", "upper", "lower"])
+        icont = rng.choice(["int64", "int32", "pylist-int"])
+        fcont = rng.choice(["float64", "float64", "float32"] + (["pylist-float"] if icont != "pylist-int" else []))
+        ints = [rng.randint(-2, 2) for _ in range(m)]
+        fr = [rng.uniform(0.15, 0.9) * s for _ in range(m)]
+        if int_bound == "upper":
+            up, lo = [float(v) for v in ints], [v - f for v, f in zip(ints, fr)]
+            frac = lo
+        else:
+            lo, up = [float(v) for v in ints], [v + f for v, f in zip(ints, fr)]
+            frac = up
+        if fcont == "float32":
+            frac[:] = [float(np.float32(v)) for v in frac]
+        if not all(a <= b for a, b in zip(lo, up)) or all(float(math.trunc(v)) == v for v in frac):
+            continue
+        tr = [float(math.trunc(v)) for v in frac]
+        lo_t, up_t = (tr, up) if int_bound == "upper" else (lo, tr)
+        # the all-float region, roughly where the mixed one is
+        ext = max(s, 0.25)
+        cf = [(a + b) / 2 + rng.uniform(-1, 1) * ext for a, b in zip(lo, up)]
+        hf = [rng.uniform(0.05, 0.5) * rng.choice([s, ext]) for _ in range(m)]
+        lf, uf = [c - h for c, h in zip(cf, hf)], [c + h for c, h in zip(cf, hf)]
+
+        def dbox(lo_m, up_m):
+            if which == 1:   # mixed region is R1: d = z' − z ∈ [lf − up_m, uf − lo_m]
+                return np.array(lf) - np.array(up_m), np.array(uf) - np.array(lo_m)
+            return np.array(lo_m) - np.array(uf), np.array(up_m) - np.array(lf)
+
+        bound = 1e3
+        kt = kappa_star(W, *dbox(lo, up), np.zeros(m), e, bound)
+        kr = kappa_star(W, *dbox(lo_t, up_t), np.zeros(m), e, bound)
+        if kt is None or kr is None or abs(kt) > 0.9 * bound or abs(kr) > 0.9 * bound:
+            continue
+        if abs(kt - kr) < 2e-4 * max(1.0, s):
+            continue
+        kap = kr + rng.uniform(0.3, 0.7) * (kt - kr)
+        sk = rng.choice(["zero", "zero", "float", "vec", "int0"])
+        sig = rng.uniform(0.0, 0.5) * s
+        if sk in ("zero", "int0"):
+            slack, svec = (0 if sk == "int0" else 0.0), np.zeros(m)
+        elif sk == "float":
+            slack, svec = sig, sig * np.ones(m)
+        else:
+            svec = np.array([rng.uniform(0, 1) * sig for _ in range(m)])
+            slack = _flt(svec)
+        # translate the float region so that  W(d − slack) ≥ 0  is feasible iff kap ≤ kappa*
+        sh = -kap * e + svec
+        if which == 1:
+            lf, uf = _flt(np.array(lf) + sh), _flt(np.array(uf) + sh)
+        else:
+            lf, uf = _flt(np.array(lf) - sh), _flt(np.array(uf) - sh)
+        uf = [max(a, b) for a, b in zip(lf, uf)]
+        lk, uk, ol, ou = ("l1", "u1", "l2", "u2") if which == 1 else ("l2", "u2", "l1", "u1")
+        dt = {lk: (fcont if int_bound == "upper" else icont), uk: (icont if int_bound == "upper" else fcont),
+              ol: "float64", ou: "float64"}
+        case = {"kind": "rect", "cone": cname, "W": W, lk: lo, uk: up, ol: _flt(lf), ou: _flt(uf),
+                "slack": slack, "slack_kind": sk, "shape": "pair-dtype", "dtypes": dt}
+        break
+    if case is None:  # no decisive placement found: an ordinary mixed-container pair
+        W = _CONES["orthant2"]
+        case = {"kind": "rect", "cone": "orthant2", "W": W, "l1": [-0.5, -0.25], "u1": [0.0, 0.0],
+                "l2": [-0.375, -0.125], "u2": [-0.125, -0.0625], "slack": 0.0, "slack_kind": "zero",
+                "shape": "pair-dtype", "dtypes": {"l1": "float64", "u1": "int64", "l2": "float64", "u2": "float64"}}
+    return case
 
 
 def _gen_malformed(rng, names):
@@ -788,11 +912,65 @@ def _run_rect(ctx, case):
     m = len(W[0])
     order = real_order(W)
     l1, u1, l2, u2 = (np.array(case[k], dtype=float) for k in ("l1", "u1", "l2", "u2"))
-    R1 = RectangularConfidenceRegion(m, l1.copy(), u1.copy())
-    R2 = RectangularConfidenceRegion(m, l2.copy(), u2.copy())
+    dt = case.get("dtypes") or {}
+    for k in dt:
+        ctx.count(f"rect_container_{dt[k]}")
+    try:
+        R1 = RectangularConfidenceRegion(m, _mk_bound(case["l1"], dt.get("l1")), _mk_bound(case["u1"], dt.get("u1")))
+        R2 = RectangularConfidenceRegion(m, _mk_bound(case["l2"], dt.get("l2")), _mk_bound(case["u2"], dt.get("u2")))
+    except Exception as e:
+        if not dt or isinstance(e, ValueError) and "pair-dtype case" in str(e):
+            raise
+        ctx.violation("crash:" + core.exc_key(e), "RectangularConfidenceRegion rejects bounds given in an "
+                      "integer / float32 / list container", case, kind="R")
+        ctx.case_done(case, False)
+        return
     sv = _slack_vec(case)
     tau = _tau(W, l1, u1, l2, u2, sv)
-    out = _call_real(order, R1, R2, _slack_arg(case))
+    # observe (pass-through) every call is_covered makes to hyperrectangle_get_region_matrix, if it makes any
+    import vopy.confidence_region as _cr
+
+    helper_calls = []
+    orig_helper = getattr(_cr, "hyperrectangle_get_region_matrix", None)
+    if orig_helper is not None:
+        def _spy_helper(lower, upper):
+            r = orig_helper(lower, upper)
+            try:
+                helper_calls.append(([core.frac(v) for v in np.asarray(lower).reshape(-1)],
+                                     [core.frac(v) for v in np.asarray(upper).reshape(-1)],
+                                     np.array(r[0]), np.array(r[1])))
+            except Exception:
+                pass
+            return r
+        _cr.hyperrectangle_get_region_matrix = _spy_helper
+    try:
+        out = _call_real(order, R1, R2, _slack_arg(case))
+    finally:
+        if orig_helper is not None:
+            _cr.hyperrectangle_get_region_matrix = orig_helper
+    if not helper_calls:
+        ctx.count("rect_region_matrix_helper_not_called_info")
+    for lo_f, up_f, A_got, b_got in helper_calls:
+        # (F) mirror: the helper's (A, b) must be the model's box rows [I; −I], [l; −u] of the exact values
+        ctx.count("rect_region_matrix_mirrored")
+        fq = lambda v: ",".join(str(x.numerator) if x.denominator == 1 else f"{x.numerator}/{x.denominator}" for x in v) or "_"
+        ans_h = ctx.ask("boxrows", fq(lo_f), fq(up_f))
+        A_m, b_m = ans_h.split("|")
+        A_m, b_m = core.parse_qmat(A_m), core.parse_qvec(b_m)
+        try:
+            ok = (A_got.shape == (len(A_m), len(lo_f)) and b_got.reshape(-1).shape == (len(b_m),)
+                  and all(core.frac(A_got[i, j]) == A_m[i][j] for i in range(len(A_m)) for j in range(len(lo_f)))
+                  and all(core.frac(x) == y for x, y in zip(b_got.reshape(-1), b_m)))
+        except Exception:
+            ok = False
+        if not ok:
+            ctx.violation("helper-region-matrix", "hyperrectangle_get_region_matrix(lower, upper), as called by "
+                          "is_covered, is not the matrix form [I; −I] z ≥ [lower; −upper] of the VALUES it was given "
+                          "(model: axisRows of rectSys)", case, kind="F",
+                          detail={"lower": [str(x) for x in lo_f], "upper": [str(x) for x in up_f],
+                                  "boundary": [str(core.frac(x)) for x in b_got.reshape(-1)][:12],
+                                  "boundary_dtype": str(b_got.dtype), "model_boundary": [str(x) for x in b_m]})
+            break
     args = (core.qmat(W), core.qvec(l1), core.qvec(u1), core.qvec(l2), core.qvec(u2), core.qvec(sv))
     ans = ctx.ask("rect", *args, core.q(tau))
     if ans == "ValueError":
@@ -837,11 +1015,18 @@ def _run_rect(ctx, case):
         ctx.count("rect_cert_recheck_ok")
     nt = _compare(ctx, case, out, *vs, "rect",
                   wide=lambda: ctx.ask("rect", *args, core.q(tau * TAU_SCS / TAU)).split(","))
+    tc = _trunc_case(case)
+    if tc is not None:
+        tv = ctx.ask("rect", core.qmat(W), core.qvec(tc["l1"]), core.qvec(tc["u1"]), core.qvec(tc["l2"]),
+                     core.qvec(tc["u2"]), core.qvec(sv), core.q(tau)).split(",")
+        if nt and len(tv) == 3 and ((vs[0] == "1" and tv[2] == "0") or (vs[2] == "0" and tv[0] == "1")):
+            ctx.count("rect_dtype_fraction_decides")
     if nt and case["slack_kind"] not in ("zero", "int0") and any(v != 0 for v in sv):
         z = ctx.ask("rect", *args[:5], "0", core.q(tau)).split(",")
         if len(z) == 3 and z[1] in "01" and vs[1] in "01" and z[1] != vs[1]:
             ctx.count("rect_slack_decisive")
-    ctx.case_done(case, nt, canon=["rect", W, case["l1"], case["u1"], case["l2"], case["u2"], sv])
+    ctx.case_done(case, nt, canon=["rect", W, case["l1"], case["u1"], case["l2"], case["u2"], sv,
+                                   sorted(dt.items())])
 
 
 def _run_ball(ctx, case):
